@@ -14,7 +14,8 @@ import solve_oracles as so
 MODULE = "DfolsVerif.Properties.C03"
 BUILD_TARGETS = ss.ACCEPT_TARGETS
 THEOREMS = ["Dfols.C03.C03_label", "Dfols.C03.C03_candidate_truthful", "Dfols.C03.booksites_eq",
-            "Dfols.C03.C03_src_points_labelled", "Dfols.C03.C03_src_samples", "Dfols.C03.C03_src_saves"]
+            "Dfols.C03.C03_src_points_labelled", "Dfols.C03.C03_src_samples", "Dfols.C03.C03_src_saves",
+            "Dfols.C03.C03_src_add_new_point_on_full_set"]
 TRUSTED_EXTRA = [
     "model = event lists accepted by BookAcc.step (hand-written mirror of the call sites of change_point/add_new_point/add_new_sample/save_point/get_final_results, the x0 exit, restarted runs and the hard-restart merge)",
     "that soln.x is the argument and soln.resid the mean of the evaluations named by the acceptor's candidate is compared on real runs (floats), not proved",
@@ -97,6 +98,7 @@ def search(ctx):
             ctx.fail(sig, what, {"seed": seed, "config": ss.describe(d)})
         if len([f for f in ctx.failures]) > 12:
             break
+    ss.rejection_budgets(ctx, lambda t, d, kw: so.c03(t, d, h=kw.get("h")) if t.result is not None else [], allow=ALLOW, mutate_cfg=mutate)
 
 
 def replay(payload):
@@ -108,7 +110,7 @@ def replay(payload):
     if len(rp["seed"]) == 5:
         _seed, prob, kw, d, t, _f = ss.replay_sweep(dfols, rp["seed"])
     else:
-      prob, kw, d, t = ss.gen_run(dfols, rp["seed"], allow=ALLOW, mutate_cfg=mutate)
+      prob, kw, d, t = ss.gen_run(dfols, rp["seed"], allow=ALLOW, mutate_cfg=mutate, maxfun_override=rp.get("maxfun_override"))
     res = so.c03(t, d, h=kw.get("h"))
     print("replay:", res if res else "property holds on this input now")
     return 1 if res else 0
